@@ -367,6 +367,7 @@ def bounded(tier, seed, R):
     wbs.append(W.WB({'A1': 100.0, 'A2': 0}, {'B1': '=A1*1000000', 'B2': '=IF(A1>100,"over","ok")'}, 'float-noise'))
     # CSE array formulas and a second sheet under histories
     wbs += W.cse_grammar(rnd, 4 if not thorough else 12)
+    wbs += W.random_dags(rnd, 6 if not thorough else 60)
     wbs.append(W.WB({'A1': 1, 'A2': 2, 'T!A1': 5}, {'B1': '=A1+T!A1', 'T!B1': '=SUM(S!A1:A2)*A1', 'C1': '=B1+T!B1',
                                                     'T!C1': '=SUM(A:A)+S!C1'}, 'two-sheets'))
     with W.TmpDir() as tmp:
